@@ -276,7 +276,7 @@ def representative_alphabet(patterns, extra_points=()):
 # ---------------------------------------------------------------------------------------------
 # mutations
 
-def near_misses(s, draw, alphabet='0123456789HhKkMmgGxX .sSwWtTcCjJ:lLyY\n'):
+def near_misses(s, draw, alphabet='0123456789HhKkMmgGxX .sSwWtTcCjJ:lLyY\n%%{}\\\'"\x00'):
     """One single-edit neighbour of s."""
     k = draw(5)
     if not s:
